@@ -12,7 +12,7 @@ P = {
    "Every program of the C01 spaces, their literal-operand variants and the S5 e2e corpus is built in debug and release and must produce identical log ids+payloads, revert status and code. No reference model involved, so it also covers programs outside the interpreter's fragment.",
    "Gas, bytecode size and backtrace metadata are not compared."),
  "C03": ("exploration", "E-enum", "bounded-exhaustive pipeline-variant enumeration, differential execution",
-   "For every batch of the compact corpus, the O0 pipeline is compared with every variant obtained by inserting each of the 19 registered transforms before the Fuel lowering passes (thorough: every pre-lowering position, all ordered pairs, O1 with each single pass removed), through cfg-guarded hook H1a; every test entry must behave as in the baseline and the backend must accept the result.",
+   "For every batch of the compact corpus, the O0 pipeline is compared with every variant obtained by inserting each of the 19 registered transforms before the Fuel lowering passes, and with the whole O1 pipeline (thorough: every pre-lowering position, all ordered pairs, O1 with each single pass removed, which names the culprit), through cfg-guarded hook H1a; every test entry must behave as in the baseline and the backend must accept the result.",
    "Variant-vs-baseline on the same typed program; a bug shared by all pipelines is C01's."),
  "C04": ("exploration", "E-enum", "bounded-exhaustive pass-sequence enumeration with the IR verifier as oracle",
    "Hook H1b runs the IR verifier with SSA dominance checking after EVERY pass of the default pipelines and of all pass sequences of length <= 2 (thorough <= 3 on one batch) over the 19 registered transforms, on every batch of the compact corpus; a pass that panics on verified IR is a violation.",
@@ -21,13 +21,13 @@ P = {
    "At every stage of the real debug and release pipelines of every corpus batch and of three hand-written packages the IR is printed, re-parsed (the parser verifies), re-printed and compared up to a per-function bijective renaming of value names; a second build substitutes the re-parsed module at every stage and must behave identically.",
    "Value names are arena keys and cannot round-trip literally; that is why identity is up to renaming."),
  "C06": ("exploration", "E-enum", "bounded-exhaustive operand enumeration in compile-time contexts vs run time",
-   "Every S1 expression is evaluated in seven compile-time contexts (const, configurable, const via five const-evaluable function shapes) and, in the same test entry, at run time on opaque operands; a compiled context must yield exactly the run-time value and the compiler must never have substituted a value for a reverting expression; optimiser folding is covered by the literal-operand corpus of C02/C03.",
+   "Every S1 expression is evaluated in seven compile-time contexts (const, configurable, const via five const-evaluable function shapes) and, in the same test entry, at run time on opaque operands; a compiled context must yield exactly the run-time value and the compiler must never have substituted a value for a reverting expression; optimiser folding: the same expressions with literal operands in a function body, release build, against the reference value (shift amounts include the 32-bit truncation boundary).",
    "A context that rejects an expression is not a violation (counted in the evidence)."),
  "C07": ("exploration", "E-enum", "bounded-exhaustive differential execution (asm optimiser on vs off)",
-   "Every corpus program plus shapes aimed at the abstract-instruction optimiser is built with AbstractInstructionSet::optimize enabled and skipped (hook H2) in both profiles and must behave identically.",
+   "Every corpus program plus shapes aimed at the abstract-instruction optimiser (incl. every inline-asm sequence of <= 3 pointer-arithmetic/load/store instructions over a 16-word buffer, with a word-array reference machine) is built with AbstractInstructionSet::optimize enabled and skipped (hook H2) in both profiles and must behave identically.",
    "The un-optimised stream is the reference."),
  "C08": ("exploration", "E-enum", "independent post-allocation checker on every compiled function + pressure ladder",
-   "Hook H3 recomputes liveness over the final virtual-register instruction list of every function and checks that no definition lands in the machine register of a different live virtual register (MOVE copies excepted) and that spill slots are distinct; the ladder (6 shapes x k live values, k crossing the allocatable registers) is also compared with the reference result on the VM.",
+   "Hook H3 recomputes liveness over the final virtual-register instruction list of every function and checks that no definition lands in the machine register of a different live virtual register (MOVE copies excepted) and that spill slots are distinct; the ladder (6 shapes x k live values, k crossing the allocatable registers) is also compared with the reference result on the VM; a contract family puts k live values across the only two-output opcode (SRW).",
    "Trusted: per-opcode def/use/successor tables (covered by the VM comparison)."),
  "C09": ("exploration", "E-enum", "bounded-exhaustive type-tree x value enumeration vs reference ABI encoder", "", ""),
  "C10": ("exploration", "E-enum", "bounded-exhaustive type-tree enumeration, three encodings + invalid byte patterns", "", ""),
@@ -39,7 +39,9 @@ P = {
  "C16": ("exploration", "E-text", "bounded-exhaustive string / token-sequence enumeration + first-order corpus deviations",
    "All strings up to length 5 (thorough 6) over 26 lexer-relevant symbols, all token sequences up to length 4/5 over 30- and 90-token alphabets in 4 contexts, char/string literal bodies over escape symbols, and every single-token deviation / truncation of the corpus files go through the real lex / lex_commented / parse_file under catch_unwind and a hang watchdog; every diagnostic span is checked to lie in bounds on char boundaries.",
    "Inputs needing two coordinated edits far apart are outside the bound."),
- "C17": ("exploration", "E-enum", "bounded-exhaustive first-order semantic mutation of base programs + scale ladder", "", ""),
+ "C17": ("exploration", "E-enum", "bounded-exhaustive first-order semantic mutation of base programs + scale ladder",
+   "Every single-edit mutant of 6 (thorough 49) base programs under 11 token-level mutation families (operators, literals, types, identifiers in scope, deletions, duplications, swaps, mutability, ...), 8 hand-written seeds and 25 scale-ladder families (nesting depth, arity, constant count, ...) is compiled by the real forc path in debug, survivors also in release; a build must end in success or diagnostics within the hang threshold - a panic, an internal compiler error, an abort or a timeout is a violation, keyed by failure location and mutation family and confirmed alone through the plain forc path.",
+   "Two coordinated edits and programs beyond the ladder ceilings are outside the bound; identifier scope is approximated (recorded as an assumption)."),
  "C18": ("exploration", "E-text", "corpus + bounded-exhaustive item grammar + every comment/whitespace insertion, format twice", "", ""),
  "C19": ("exploration", "E-text", "same inputs, token/comment-sequence comparator", "", ""),
  "C20": ("model_checking", "E-bfs", "explicit enumeration of package graphs, every transition through the real lock writer/reader", "", ""),
@@ -52,10 +54,10 @@ P = {
    "A real ServerState (real worker thread, channel, Notify, atomics, real parse_project) with the real handlers polled cooperatively on one task thread; hook H5 points serialise the two threads; all interleavings with <= 1 (thorough 2) preemptions and every poll/issue order of handler futures, for every client script of <= 2 (3) events after open; oracle: no handler waits forever at quiescence, the last completed compilation started after the last edit was written.",
    "Sequential consistency at the granularity of one H5 point; wait_for_parsing's two flag reads form one step."),
  "C25": ("model_checking", "E-sched", "stateless exploration of all interleavings and crash points of real processes at file-system step points",
-   "Two or three REAL processes running the real PidFileLocking code share a harness-owned HOME; hook H4 step points before every file-system operation let the scheduler serialise them; all interleavings within per-scenario preemption bounds (unbounded for the 2-process scenarios) and every crash point (SIGKILL + reap) are explored; a monitor checks that a live owner's flag stays visible and a dead owner's flag clears.",
+   "Two or three REAL processes running the real PidFileLocking code share a harness-owned HOME; hook H4 step points before every file-system operation let the scheduler serialise them; all interleavings within per-scenario preemption bounds (unbounded for the 2-process scenarios) and every crash point (SIGKILL + reap) are explored; oracles: every completed is_file_dirty() against the owners' lock windows, and after EVERY step the state invariant 'an owner inside its lock window => the lock directory holds a flag naming a live process'; scenarios include two concurrent lockers and start states with the flag of a dead former owner.",
    "Process crash model (completed operations persist), not power loss."),
  "C26": ("model_checking", "E-bfs", "explicit enumeration of edit histories on the real server under one fixed schedule vs fresh compile",
-   "All edit histories up to depth 2 (thorough 3) over a 12-edit alphabet on a three-module project are driven through the real didOpen/didChange handlers and compilation thread on the controlled scheduler with one fixed race-free schedule; after every edit, diagnostics and token map must equal those of a fresh server opened on the same texts.",
+   "All edit histories of <= 2 edits over a 16-edit alphabet (incl. attaching/detaching a module after the first compilation and editing it; thorough adds all histories of <= 3 edits over the 12 fixed-graph edits) on a four-file project are driven through the real didOpen/didChange handlers and compilation thread on the controlled scheduler with one fixed race-free schedule; after every edit, diagnostics and token map must equal those of a fresh server opened on the same texts.",
    "Std-less project; one schedule (schedule dependence is C24's subject)."),
  "C27": ("model_checking", "E-bfs", "explicit enumeration of operation sequences executed in-VM vs Rust reference models", "", ""),
  "C28": ("model_checking", "E-bfs", "explicit enumeration of storage operation histories executed in-VM vs reference models", "", ""),
